@@ -226,15 +226,19 @@ def run_vck(ctx, res=None):
             tag = 'RET'
         except BaseException as x:        # noqa - the property says the run never raises
             tag = f'RAISED {type(x).__name__}'
-        cur = vc.current_packet
-        lines = [tag] + hist + [f'cells rc={vc.packets_received} cur={"None" if cur is None else cur.packet_id} len={len(vc.store.items)}']
-        for f in range(c['F']):
-            lines.append(f'flow {f} count={vc.queue_count.get(f, 0)} bytes={vc.queue_byte_size.get(f, 0)}')
-        if list(vc.vc.keys()) != [k for k, _ in c['vticks']] or list(vc.aux_vc.keys()) != [k for k, _ in c['vticks']]:
-            lines.append(f'key order of vc / aux_vc: {list(vc.vc.keys())} {list(vc.aux_vc.keys())}')
-        for k, _ in c['vticks']:
-            lines.append(f'class {k} vc={bits(vc.vc[k])} aux={bits(vc.aux_vc[k])}')
-        lines.append(f'keys {list(vc.queue_count.keys())}')
+        lines = [tag] + hist
+        try:                              # a changed implementation may lack an attribute: that is a disagreement, not a crash of the check
+            cur = vc.current_packet
+            lines += [f'cells rc={vc.packets_received} cur={"None" if cur is None else cur.packet_id} len={len(vc.store.items)}']
+            for f in range(c['F']):
+                lines.append(f'flow {f} count={vc.queue_count.get(f, 0)} bytes={vc.queue_byte_size.get(f, 0)}')
+            if list(vc.vc.keys()) != [k for k, _ in c['vticks']] or list(vc.aux_vc.keys()) != [k for k, _ in c['vticks']]:
+                lines.append(f'key order of vc / aux_vc: {list(vc.vc.keys())} {list(vc.aux_vc.keys())}')
+            for k, _ in c['vticks']:
+                lines.append(f'class {k} vc={bits(vc.vc[k])} aux={bits(vc.aux_vc[k])}')
+            lines.append(f'keys {list(vc.queue_count.keys())}')
+        except Exception as x:            # noqa
+            lines.append(f'final state unreadable: {type(x).__name__}')
         return lines + [f'now {bits(env.now)}', 'oracle ok' if tag == 'RET' and not oracle_k(c, lines)[0] else 'oracle -' if tag != 'RET' else 'oracle REJECT']
 
     def oracle_k(c, lines):
@@ -483,18 +487,22 @@ def run_wfqk(ctx, res=None):
             tag = 'RET'
         except BaseException as x:        # noqa - the property says the run never raises
             tag = f'RAISED {type(x).__name__}'
-        cur = wfq.current_packet
-        lines = [tag] + hist + [f'cells rc={wfq.packets_received} cur={"None" if cur is None else cur.packet_id} len={len(wfq.store.items)}']
-        for f in range(c['F']):
-            lines.append(f'flow {f} count={wfq.queue_count.get(f, 0)} bytes={wfq.queue_byte_size.get(f, 0)}')
-        lines.append(f'vtime {bits(wfq.vtime)} last_time {bits(wfq.last_time)}')
-        if wfq.finish_times and list(wfq.finish_times.keys()) != [k for k, _ in c['weights']]:
-            lines.append(f'key order of finish_times: {list(wfq.finish_times.keys())}')
-        for k, _ in c['weights']:
-            lines.append(f'class {k} finish={bits(wfq.finish_times[k]) if k in wfq.finish_times else "-"} '
-                         f'count={wfq.class_count.get(k, "-")} active={1 if k in wfq.active_set else 0}')
-        lines.append(f'keys {list(wfq.queue_count.keys())}')
-        lines.append(f'ckeys {list(wfq.class_count.keys())}')
+        lines = [tag] + hist
+        try:                              # a changed implementation may lack an attribute: that is a disagreement, not a crash of the check
+            cur = wfq.current_packet
+            lines += [f'cells rc={wfq.packets_received} cur={"None" if cur is None else cur.packet_id} len={len(wfq.store.items)}']
+            for f in range(c['F']):
+                lines.append(f'flow {f} count={wfq.queue_count.get(f, 0)} bytes={wfq.queue_byte_size.get(f, 0)}')
+            lines.append(f'vtime {bits(wfq.vtime)} last_time {bits(wfq.last_time)}')
+            if wfq.finish_times and list(wfq.finish_times.keys()) != [k for k, _ in c['weights']]:
+                lines.append(f'key order of finish_times: {list(wfq.finish_times.keys())}')
+            for k, _ in c['weights']:
+                lines.append(f'class {k} finish={bits(wfq.finish_times[k]) if k in wfq.finish_times else "-"} '
+                             f'count={wfq.class_count.get(k, "-")} active={1 if k in wfq.active_set else 0}')
+            lines.append(f'keys {list(wfq.queue_count.keys())}')
+            lines.append(f'ckeys {list(wfq.class_count.keys())}')
+        except Exception as x:            # noqa
+            lines.append(f'final state unreadable: {type(x).__name__}')
         return lines + [f'now {bits(env.now)}', 'oracle ok' if tag == 'RET' and not oracle_k(c, lines)[0] else 'oracle -' if tag != 'RET' else 'oracle REJECT']
 
     def full_tie(lines):
